@@ -214,7 +214,7 @@ def check(run: Run) -> None:
                 run.count(1)
                 if ids != {mask}:
                     run.finding("C05.a", f"{cls}::{acc}", f"{cls}::{acc} must read {mask} only, reads {sorted(ids)}", loc=SLOT)
-        run.sites(sets, 10, "mask set sites")
+        run.sites(sets, 6, "mask set sites")   # vacuity guard
         run.count(1, "C05.a")
 
     with run.obligation("C05.b", "K1+K2", "prepare_delta: an older-or-equal time joins the window; a newer time erases pending keys, then resets "
